@@ -30,6 +30,16 @@ package eth
 //@   ensures [short] len(data) < 4 ==> result != nil
 //@   ensures [value] result == nil ==> len(data) >= 4 && len(data) <= 20 && uint8(*b) == uint8(old(hexval(string(data[3:len(data)-1]), len(data)-4)))
 //@   ensures [err-if-nonhex] result == nil ==> old(allhex(string(data[3:len(data)-1])))
+//@   ensures [total] old(len(data) >= 4 && len(data) <= 20 && allhex(string(data[3:len(data)-1]))) ==> result == nil
+
+// The one-byte writer used by the RLP/JSON decoders: stores exactly the byte
+// given and reports one byte written.
+//@ func (*Byte).Write props=C17
+//@   ensures [stored] uint8(*b) == p && result0 == 1 && result1 == nil
+
+// The accessor returns the very bytes held (same length, same contents).
+//@ func (*Bytes).Bytes props=C17,C10
+//@   ensures [same] len(result) == len(*hb) && (forall k int :: 0 <= k && k < len(*hb) ==> result[k] == (*hb)[k])
 
 //@ func (*Bytes).Write props=C17,C08,C18
 //@   requires len(p) == 0 || base(p) != base(*hb)
